@@ -130,11 +130,7 @@ struct M {
     }
     if (!s[k]) return "none";
     if (op == "setfreq") {
-      // Simplex::setFrequencies reads probas[0 .. dim_-1] without a test once the sum test (on the whole
-      // argument) has passed: a shorter vector summing to one would be read out of bounds (undefined
-      // behaviour) and is not executed
       std::vector<double> v = vec(t, 2);
-      if (v.size() < s[k]->dimension() && !(std::fabs(1. - VectorTools::sum(v)) > NumConstants::SMALL())) return "ub";
       s[k]->setFrequencies(v); return showS(*s[k]);
     }
     if (op == "setpar") { s[k]->matchParametersValues(allParams(*s[k], vec(t, 2))); return showS(*s[k]); }
